@@ -549,3 +549,26 @@ M("m88h", "C13", "R13.1", DEMOOR, "        return self.demand_probabilities[rand
   "a new, untriaged distribution call site", survives="no")
 B("b35", ["C13", "C16"], DEMOOR, "        demand_probabilities = demand_probabilities.at[-1].add(\n            1 - demand_probabilities.sum()\n        )",
   "        demand_probabilities = demand_probabilities.at[-1].add(\n            1.0 - jnp.sum(demand_probabilities)\n        )", "sum spelled as a function")
+
+# =============================================================================== C14
+M("m89", "C14", "R14.1", MIRJ, "        opening_stock_after_delivery = opening_stock_after_delivery.clip(\n            0, self.max_order_quantity\n        )\n", "",
+  "Mirjalili: post-delivery clip removed (successor stock up to 2Q is silently clipped onto another state)")
+M("m90", "C14", "R14.1", FOREST, "                    jnp.minimum(state[0] + 1, self.S - 1),", "                    jnp.minimum(state[0] + 1, self.S),", "Forest: age capped at S instead of S-1", survives="no")
+M("m91", "C14", "R14.2", HENDRIX, "        return self._state_to_index_fn(state)", "        return self._random_event_to_index(state)", "Hendrix: state indexed with the event space's index function", survives="no")
+M("m91b", "C14", "R14.1", DEMOOR, "        closing_in_transit = in_transit[0 : self.lead_time - 1]", "        closing_in_transit = in_transit[0 : self.lead_time]",
+  "De Moor: pipeline not shortened (successor one component too long for lead time >= 1)", survives="no")
+M("m91c", "C14", "R14.1", DEMOOR, "        return jnp.arange(0, self.max_demand + 1).reshape(-1, 1)\n", "        return jnp.arange(0, self.max_demand + 1).reshape(-1, 1)\n",
+  "placeholder", survives="n/a")
+MUTANTS.pop()
+M("m91d", "C14", "R14.1", DEMOOR, "        return jnp.arange(0, self.max_order_quantity + 1).reshape(-1, 1)", "        return jnp.arange(0, self.max_order_quantity + 2).reshape(-1, 1)",
+  "De Moor: action space allows ordering Q+1 units, one more than any stock component can hold")
+M("m91e", "C14", "R14.1", HENDRIX, "        maxs = np.array([self.max_order_quantity_a, self.max_order_quantity_b])\n        action_space, _ = create_range_space(mins, maxs)",
+  "        maxs = np.array([self.max_order_quantity_b, self.max_order_quantity_a])\n        action_space, _ = create_range_space(mins, maxs)",
+  "Hendrix: order limits of A and B swapped in the action space (equal in every test)")
+M("m91f", "C14", "R14.1", MIRJ, "                np.array([6]),  # weekday", "                np.array([5]),  # weekday", "Mirjalili: weekday component limited to 0..5 while the successor reaches 6", survives="no")
+M("m91g", "C14", "R14.1", MIRJ, "        next_weekday = (state[self.state_component_lookup[\"weekday\"]] + 1) % 7", "        next_weekday = state[self.state_component_lookup[\"weekday\"]] + 1",
+  "Mirjalili: weekday not wrapped (7 is clipped onto Sunday)", survives="no")
+M("m91h", "C14", "R14.2", DEMOOR, "        state_space, self._state_to_index_fn = create_range_space(mins, maxs)\n        return state_space",
+  "        state_space, _ = create_range_space(mins, maxs)\n        _, self._state_to_index_fn = create_range_space(mins, maxs + 1)\n        return state_space",
+  "De Moor: index function built for a larger box than the state space", survives="no")
+B("b36", ["C14", "C15"], MIRJ, "        next_weekday = (state[self.state_component_lookup[\"weekday\"]] + 1) % 7", "        next_weekday = (1 + state[self.state_component_lookup[\"weekday\"]]) % 7", "sum commuted")
